@@ -523,6 +523,125 @@ Proof.
 Qed.
 
 (* ------------------------------------------------------------------ *)
+(* restore entry points                                                 *)
+(* ------------------------------------------------------------------ *)
+(* UnmarshalBinary depends on the hasher option only through the EFFECTIVE hasher *)
+Lemma unmarshal_cfg_ext T Hd json_ok cfg cfg' t0 inlen w :
+  hasher_or Hd cfg = hasher_or Hd cfg' ->
+  unmarshal T Hd json_ok cfg t0 inlen w = unmarshal T Hd json_ok cfg' t0 inlen w.
+Proof. intros H. unfold unmarshal. rewrite H. reflexivity. Qed.
+
+(* MerklizerFromBytes (hasher preset to the package default, options on top) is
+   UnmarshalBinary on a Merklizer carrying just the options: presetting the default and
+   defaulting a nil hasher inside UnmarshalBinary are the same thing *)
+Theorem from_bytes_unmarshal {L} T Hd json_ok (o : ropts L) inlen w :
+  from_bytes T Hd json_ok o inlen w =
+  (x <- unmarshal T Hd json_ok (o_hasher o) (o_tree o) inlen w ;; Ok (x, o_loader o)).
+Proof.
+  unfold from_bytes.
+  rewrite (unmarshal_cfg_ext T Hd json_ok (Some (hasher_or Hd (o_hasher o))) (o_hasher o)); [reflexivity|].
+  destruct (o_hasher o); reflexivity.
+Qed.
+
+(* all option-less entry points coincide: MerklizerFromBytes(blob), zero-value
+   UnmarshalBinary, gob decoding *)
+Theorem entry_points_agree {L} T Hd json_ok inlen w :
+  @from_bytes L T Hd json_ok (mkropts None None None) inlen w = unmarshal_zero T Hd json_ok inlen w /\
+  @gob_decode L T Hd json_ok inlen w = unmarshal_zero T Hd json_ok inlen w.
+Proof. split; [apply from_bytes_unmarshal | reflexivity]. Qed.
+
+Theorem entry_points_agree_all (L : Type) T Hd json_ok inlen w :
+  (forall o : ropts L,
+     from_bytes T Hd json_ok o inlen w =
+     (x <- unmarshal T Hd json_ok (o_hasher o) (o_tree o) inlen w ;; Ok (x, o_loader o))) /\
+  @from_bytes L T Hd json_ok (mkropts None None None) inlen w = unmarshal_zero T Hd json_ok inlen w /\
+  @gob_decode L T Hd json_ok inlen w = unmarshal_zero T Hd json_ok inlen w.
+Proof.
+  split; [intros o; apply from_bytes_unmarshal|]. apply entry_points_agree.
+Qed.
+
+(* the hasher of a restored merklizer is never nil: it is the option, else the package
+   default at restore time; MkValue therefore always hashes with it *)
+Theorem hasher_defaulted T Hd json_ok cfg t0 inlen w x :
+  unmarshal T Hd json_ok cfg t0 inlen w = Ok x ->
+  mz_hasher (x_mz x) = hasher_or Hd cfg /\
+  forall v, (y <- mz_mk_value (x_mz x) v ;; value_mt_entry y) = mk_value_entry (hasher_or Hd cfg) v.
+Proof.
+  unfold unmarshal. intros H.
+  destruct (negb (w_ver w =? mz_version)); [discriminate|].
+  destruct (negb (json_ok (w_compacted w))); [discriminate|].
+  destruct (_ && _); [discriminate|].
+  destruct (_ || _); [discriminate|].
+  destruct (negb (w_n w =? _)); [discriminate|].
+  apply bind_ok in H. destruct H as (em & _ & H).
+  apply bind_ok in H. destruct H as (t' & _ & H). inversion H; subst x. cbn [x_mz mz_hasher].
+  split; reflexivity.
+Qed.
+
+Theorem restored_hasher_and_loader {L} T Hd json_ok (o : ropts L) inlen w r :
+  from_bytes T Hd json_ok o inlen w = Ok r ->
+  r_hasher r = hasher_or Hd (o_hasher o) /\
+  (forall v, r_mk_value r v = mk_value_entry (hasher_or Hd (o_hasher o)) v) /\
+  snd r = o_loader o /\
+  forall dflt, effective_loader dflt r = match o_loader o with Some l => l | None => dflt end.
+Proof.
+  rewrite from_bytes_unmarshal. intros H.
+  apply bind_ok in H. destruct H as (x & Hx & H). inversion H; subst r.
+  destruct (hasher_defaulted _ _ _ _ _ _ _ _ Hx) as (Hh & Hmk).
+  unfold r_hasher, r_mk_value, effective_loader. cbn [fst snd].
+  repeat split; auto.
+Qed.
+
+(* seeded variants.  C13-j: UnmarshalBinary no longer defaults a nil hasher, so the field
+   stays what the options left there; C13-f: the restore forgets the loader option *)
+Definition mk_value_variant_j (field : option hasher) (v : xval) : res Z :=
+  value_mt_entry (mkvalue v field).
+Theorem variant_j_refuted :
+  exists v, mk_value_variant_j None v = Panic "nil-hasher"%string.
+Proof. exists (XStr "x"%string). reflexivity. Qed.
+
+Definition from_bytes_variant_f {L} (T : tparams) (Hd : hasher) (json_ok : string -> bool) (o : ropts L)
+           (inlen : Z) (w : wire) : res (restored L) :=
+  x <- unmarshal T Hd json_ok (o_hasher o) (o_tree o) inlen w ;; Ok (x, None).
+Theorem variant_f_refuted :
+  exists (o : ropts nat) (dflt : nat), forall T Hd json_ok inlen w r r',
+    from_bytes T Hd json_ok o inlen w = Ok r ->
+    from_bytes_variant_f T Hd json_ok o inlen w = Ok r' ->
+    effective_loader dflt r <> effective_loader dflt r'.
+Proof.
+  exists (mkropts None None (Some 1%nat)), 0%nat. intros T Hd json_ok inlen w r r' H H'.
+  destruct (restored_hasher_and_loader _ _ _ _ _ _ _ H) as (_ & _ & _ & Hl). rewrite Hl. cbn [o_loader].
+  unfold from_bytes_variant_f in H'. apply bind_ok in H'. destruct H' as (x & _ & H'). inversion H'; subst r'.
+  unfold effective_loader. cbn [snd]. discriminate.
+Qed.
+
+(* the round trip through EVERY entry point *)
+Theorem roundtrip_entry_points {L} T json_ok Hd h es m0 :
+  Forall (entry_uses h) es ->
+  merklize_from_entries T Hd h None es = Ok m0 ->
+  forall pi, Permutation pi (mz_entries m0) ->
+  forall src comp safe Hd' cfg (l : option L) inlen,
+  hasher_or Hd' cfg = h ->
+  json_ok comp = true ->
+  Z.of_nat (List.length (mz_entries m0)) <= inlen ->
+  exists w, marshal T pi (mkmzx m0 src comp safe) = Ok w /\
+    let X := mkmzx (mkmz pi (mz_tree m0) h) src comp safe in
+    from_bytes T Hd' json_ok (mkropts cfg None l) inlen w = Ok (X, l) /\
+    (cfg = None ->
+       @unmarshal_zero L T Hd' json_ok inlen w = Ok (X, None) /\
+       @gob_decode L T Hd' json_ok inlen w = Ok (X, None) /\
+       @from_bytes L T Hd' json_ok (mkropts None None None) inlen w = Ok (X, None)).
+Proof.
+  intros Huse Hm0 pi Hpi src comp safe Hd' cfg l inlen Hcfg Hjson Hlen.
+  destruct (roundtrip T json_ok Hd h es m0 Huse Hm0 pi Hpi src comp safe Hd' cfg inlen Hcfg Hjson Hlen)
+    as (w & Hw & Hun).
+  exists w. split; [exact Hw|]. cbv zeta. split.
+  - rewrite from_bytes_unmarshal. cbn [o_hasher o_tree o_loader]. rewrite Hun. reflexivity.
+  - intros ->. unfold gob_decode, unmarshal_zero. rewrite from_bytes_unmarshal.
+    cbn [o_hasher o_tree o_loader]. rewrite Hun. cbn [bind]. repeat split.
+Qed.
+
+(* ------------------------------------------------------------------ *)
 (* non-vacuity                                                          *)
 (* ------------------------------------------------------------------ *)
 Definition exH : hasher :=
